@@ -130,6 +130,7 @@ type State struct {
 	hashInj map[string][][2]Value
 	extra   map[string]interface{}
 	approx  bool
+	notes   []NoteRec
 }
 
 type KnownSig struct {
